@@ -324,6 +324,8 @@ def bn_spec(rng, tier, big=False):
                     cards[rng.choice(rest)] = rng.randint(2, 9)
                 elif rng.random() < 0.3:
                     cards[rng.choice(rest)] = rng.randint(6, 9)
+            if n == 1 and rng.random() < 0.35:
+                cards[0] = rng.randint(10, 13)          # single-variable network with a multi-digit cardinality
             if math.prod(cards) <= max_joint:
                 break
         order = list(range(n))
@@ -553,6 +555,31 @@ def bn_without_single_value_nodes(bn):
     out["states"] = {v: s for v, s in bn["states"].items() if v not in drop}
     out["cpds"] = {v: {"parents": [p for p in c["parents"] if p not in drop], "table": c["table"]}
                    for v, c in bn["cpds"].items() if v not in drop}
+    return out
+
+
+def single_multidigit(spec):
+    """the network has exactly one variable and its cardinality has more than one digit"""
+    return len(spec["nodes"]) == 1 and spec["card"][spec["nodes"][0]] >= 10
+
+
+def bn_with_second_node(bn):
+    out = dict(bn)
+    z = "zz_extra"
+    out["nodes"] = list(bn["nodes"]) + [z]
+    out["card"] = dict(bn["card"], **{z: 2})
+    out["states"] = dict(bn["states"], **{z: ["e0", "e1"]})
+    out["cpds"] = dict(bn["cpds"], **{z: {"parents": [], "table": [[0.25], [0.75]]}})
+    return out
+
+
+def mn_with_second_node(mn):
+    out = dict(mn)
+    z = "zz_extra"
+    out["nodes"] = list(mn["nodes"]) + [z]
+    out["card"] = dict(mn["card"], **{z: 2})
+    out["states"] = dict(mn["states"], **{z: [0, 1] if mn.get("kind") == "id" else ["e0", "e1"]})
+    out["factors"] = list(mn["factors"]) + [{"vars": [z], "values": [1.0, 3.0]}]
     return out
 
 
@@ -1234,6 +1261,8 @@ def run_case(spec, ctx):
                 cands.append(("c09:uai:exponent", "exponent"))
             if fmt == "uai" and bn_single_value_nodes(bn):
                 cands.append(("c09:uai:single-value-table", "single"))
+            if fmt == "uai" and single_multidigit(bn):
+                cands.append(("c09:uai:single-variable-domain", "second-node"))
 
             def rerun(ids, fmt=fmt):
                 b2 = bn
@@ -1243,6 +1272,8 @@ def run_case(spec, ctx):
                     b2 = bn_renamed(b2, only=bif_exact_keyword_names(bn) if fmt == "bif" else net_exact_keyword_names(bn))
                 if "exponent" in ids:
                     b2 = bn_without_exponent(b2)
+                if "second-node" in ids:
+                    b2 = bn_with_second_node(b2)
                 if "single" in ids:
                     b2 = bn_without_single_value_nodes(b2)
                     if not b2["nodes"]:
@@ -1285,8 +1316,10 @@ def run_mn(spec, ctx):
         cands = []
         if mn_has_exponent(mn):
             cands.append(("c09:uai:exponent", "exponent"))
-        if mn_isolated(mn):
+        if mn_isolated(mn) and len(mn["nodes"]) > 1:
             cands.append(("c09:uai:markov-isolated-node", "isolated"))
+        if single_multidigit(mn):
+            cands.append(("c09:uai:single-variable-domain", "second-node"))
 
         def rerun(ids):
             m2 = mn
@@ -1294,6 +1327,8 @@ def run_mn(spec, ctx):
                 m2 = mn_without_exponent(m2)
             if "isolated" in ids:
                 m2 = mn_without_isolated(m2)
+            if "second-node" in ids:
+                m2 = mn_with_second_node(m2)
             r = roundtrip_mn(ctx, m2, seed)
             return r[2] if r[0] is not None else [Problem("c09:uai:neutralised-invalid", "neutralised network invalid")]
 
